@@ -679,6 +679,8 @@ class CostFunction_GaussApproximation(CostFunction):
         self._saturated = True
         # key of STRING_TO_COST_FUNCTION (the method names are spelled "gaussian_...")
         self._kafe2go_identifier = "gauss_approximation_covariance" if errors_to_use.lower() == "covariance" else "gauss_approximation_pointwise"
+        if fast_math and errors_to_use.lower() == "covariance":
+            self._kafe2go_identifier += "_fast"
 
     def gaussian_approximation_covariance(self, data, model, total_cov_mat):
         r"""A least-squares cost function calculated from (`y`) data and model values,
